@@ -1,13 +1,17 @@
 //! WebSocket half of C15: compio-ws client and server ends on `PollFd<UnixStream>`, connected through
-//! two socketpairs and a harness relay that forwards bytes in explorer-chosen fragments
-//! (everything / 1 byte / half / hold for one step). The runtime is stepped manually: nothing ever
-//! waits for the OS; completions are harvested with zero-timeout polls.
+//! two socketpairs and a harness relay. The compio ends' sockets have minimal kernel buffers, so a
+//! write of the large message symbol (or any write while the relay is not reading) meets real
+//! back-pressure. The relay owns both transport dimensions: per direction and step it decides whether
+//! it reads what the compio end wrote (read everything / stall until the next step / stall until
+//! nothing else can move) and how much of what it holds it forwards (everything / 1 byte / half /
+//! hold for one step). The runtime is stepped manually: nothing ever waits for the OS; completions
+//! are harvested with zero-timeout polls.
 use std::{
     cell::{Cell, RefCell},
-    future::Future,
+    future::{Future, poll_fn},
     io::{Read, Write},
-    os::unix::net::UnixStream,
-    pin::Pin,
+    os::{fd::AsRawFd, unix::net::UnixStream},
+    pin::{Pin, pin},
     rc::Rc,
     sync::{
         Arc, Mutex,
@@ -20,68 +24,214 @@ use std::{
 use compio_driver::{DriverType, ProactorBuilder};
 use compio_runtime::{Runtime, RuntimeBuilder, fd::PollFd};
 use compio_ws::{WebSocketStream, accept_async, client_async};
+use futures_util::{Sink, StreamExt};
 use tungstenite::{Error as WsError, Message};
 use vcore::{Report, Tier, Value, Violation, json};
 
 use crate::{Collector, sched::*};
 
-pub const SYM_NAME: [&str; 5] = ["text0", "bin1", "bin200", "ping", "close"];
+pub const SYM_NAME: [&str; 6] = ["text0", "bin1", "bin200", "ping", "close", "big"];
 const CLOSE: u8 = 4;
 const PING: u8 = 3;
+const BIG: u8 = 5;
+/// payload length of the large binary message: several times what a compio end's socket accepts
+/// while the relay is not reading (measured at start-up, see `send_capacity`)
+pub const BIG_LEN: usize = 20_000;
+
+/// who starts the close handshake of a duplex scenario
+#[derive(Clone, Copy, Debug, PartialEq, Eq, Hash, PartialOrd, Ord)]
+pub enum Closing {
+    /// nobody: both sides stop touching the stream once they have sent and received everything
+    None,
+    /// this side, after it has sent its list and received everything the peer owes it
+    Late(usize),
+    /// this side, right after its own list, while the peer may still be sending (the peer's list is
+    /// then at most one data message, started before it can have read the close frame)
+    Early(usize),
+}
 
 #[derive(Clone, Debug, PartialEq, Eq, Hash, PartialOrd, Ord)]
 pub struct Scn {
+    /// false: `sender` sends `msgs` and the other role receives; true: both roles send their list
+    /// (`lists`) and receive the peer's concurrently
+    pub duplex: bool,
     /// which role sends the list (the other role receives)
     pub sender: usize,
     pub msgs: Vec<u8>,
+    pub lists: [Vec<u8>; 2],
+    pub closing: Closing,
     pub uring: bool,
 }
 
+fn sym_list(l: &[u8]) -> String {
+    l.iter().map(|m| SYM_NAME[*m as usize]).collect::<Vec<_>>().join(",")
+}
+
 impl Scn {
+    pub fn seq(sender: usize, msgs: Vec<u8>, uring: bool) -> Scn {
+        Scn {
+            duplex: false,
+            sender,
+            msgs,
+            lists: [Vec::new(), Vec::new()],
+            closing: Closing::None,
+            uring,
+        }
+    }
+
+    pub fn driver(&self) -> &'static str {
+        if self.uring { "io_uring" } else { "poll" }
+    }
+
+    fn closing_name(&self) -> String {
+        match self.closing {
+            Closing::None => "no-close".into(),
+            Closing::Late(s) => format!("late-close-by-{}", SIDE_NAME[s]),
+            Closing::Early(s) => format!("early-close-by-{}", SIDE_NAME[s]),
+        }
+    }
+
     pub fn name(&self) -> String {
-        format!(
-            "{}-sends[{}]:{}",
-            SIDE_NAME[self.sender],
-            self.msgs.iter().map(|m| SYM_NAME[*m as usize]).collect::<Vec<_>>().join(","),
-            if self.uring { "io_uring" } else { "poll" }
-        )
+        if self.duplex {
+            format!("duplex[client:{}|server:{}|{}]:{}", sym_list(&self.lists[0]), sym_list(&self.lists[1]), self.closing_name(), self.driver())
+        } else {
+            format!("{}-sends[{}]:{}", SIDE_NAME[self.sender], sym_list(&self.msgs), self.driver())
+        }
     }
 
     pub fn class(&self) -> String {
-        format!("{}-sends:{}", SIDE_NAME[self.sender], if self.uring { "io_uring" } else { "poll" })
+        if self.duplex {
+            format!("duplex:{}:{}", self.closing_name(), self.driver())
+        } else {
+            format!("{}-sends:{}", SIDE_NAME[self.sender], self.driver())
+        }
+    }
+
+    /// cause class of the input: which kinds of message are in the list(s)
+    pub fn shape(&self) -> String {
+        fn kinds(l: &[u8]) -> String {
+            let mut k: Vec<&str> = Vec::new();
+            if l.iter().any(|m| *m < PING) {
+                k.push("data");
+            }
+            if l.contains(&BIG) {
+                k.push("big");
+            }
+            if l.contains(&PING) {
+                k.push("ping");
+            }
+            if l.contains(&CLOSE) {
+                k.push("close");
+            }
+            if k.is_empty() { "empty".into() } else { k.join("+") }
+        }
+        if self.duplex {
+            format!("client[{}]/server[{}]", kinds(&self.lists[0]), kinds(&self.lists[1]))
+        } else {
+            kinds(&self.msgs)
+        }
+    }
+
+    pub fn total_len(&self) -> usize {
+        self.msgs.len() + self.lists[0].len() + self.lists[1].len()
+    }
+
+    pub fn has(&self, sym: u8) -> bool {
+        self.msgs.contains(&sym) || self.lists.iter().any(|l| l.contains(&sym))
     }
 
     pub fn to_json(&self) -> Value {
-        json!({"sender": self.sender, "msgs": self.msgs, "uring": self.uring})
+        let (ck, cs) = match self.closing {
+            Closing::None => ("none", 0),
+            Closing::Late(s) => ("late", s),
+            Closing::Early(s) => ("early", s),
+        };
+        json!({"duplex": self.duplex, "sender": self.sender, "msgs": self.msgs, "lists": [self.lists[0], self.lists[1]],
+               "closing": ck, "closing_side": cs, "uring": self.uring, "text": self.name()})
     }
 
     pub fn from_json(v: &Value) -> Scn {
+        let list = |x: &Value| -> Vec<u8> { x.as_array().map(|a| a.iter().map(|x| x.as_u64().unwrap_or(0) as u8).collect()).unwrap_or_default() };
+        let cs = v["closing_side"].as_u64().unwrap_or(0) as usize;
         Scn {
+            duplex: v["duplex"].as_bool().unwrap_or(false),
             sender: v["sender"].as_u64().unwrap_or(0) as usize,
-            msgs: v["msgs"].as_array().map(|a| a.iter().map(|x| x.as_u64().unwrap_or(0) as u8).collect()).unwrap_or_default(),
+            msgs: list(&v["msgs"]),
+            lists: [list(&v["lists"][0]), list(&v["lists"][1])],
+            closing: match v["closing"].as_str() {
+                Some("late") => Closing::Late(cs),
+                Some("early") => Closing::Early(cs),
+                _ => Closing::None,
+            },
             uring: v["uring"].as_bool().unwrap_or(false),
         }
     }
 }
 
-fn make_msg(sym: u8, idx: usize) -> Message {
+/// message for symbol `sym`; `code` makes every message of an execution distinct (index in the
+/// list, plus 4 for the server's list in duplex scenarios). The large message is position-coded.
+fn make_msg(sym: u8, code: usize) -> Message {
     match sym {
         0 => Message::Text("".into()),
-        1 => Message::Binary(vec![0x40 + idx as u8].into()),
-        2 => Message::Binary((0..200).map(|i| (i as u8).wrapping_mul(7) ^ (idx as u8 * 0x55)).collect::<Vec<u8>>().into()),
-        3 => Message::Ping(vec![b'p', b'0' + idx as u8].into()),
+        1 => Message::Binary(vec![0x40 + code as u8].into()),
+        2 => Message::Binary((0..200).map(|i| (i as u8).wrapping_mul(7) ^ (code as u8).wrapping_mul(0x55)).collect::<Vec<u8>>().into()),
+        3 => Message::Ping(vec![b'p', b'0' + code as u8].into()),
+        BIG => Message::Binary(big_payload(code).into()),
         _ => Message::Close(None),
     }
+}
+
+fn big_payload(code: usize) -> Vec<u8> {
+    (0..BIG_LEN)
+        .map(|i| ((i % 251) as u8) ^ ((i / 251) as u8).wrapping_mul(31) ^ (code as u8).wrapping_mul(0x3b))
+        .collect()
+}
+
+fn pong_for(code: usize) -> Message {
+    Message::Pong(vec![b'p', b'0' + code as u8].into())
 }
 
 fn show_msg(m: &Message) -> String {
     match m {
         Message::Text(t) => format!("text({})", t.len()),
+        Message::Binary(b) if b.len() > 200 => format!("bin({}:{:02x?}..#{:08x})", b.len(), &b[..2], vcore::fnv(b) as u32),
         Message::Binary(b) => format!("bin({}:{:02x?})", b.len(), &b[..b.len().min(2)]),
         Message::Ping(b) => format!("ping({:?})", String::from_utf8_lossy(b)),
         Message::Pong(b) => format!("pong({:?})", String::from_utf8_lossy(b)),
         Message::Close(c) => format!("close({})", if c.is_some() { "frame" } else { "none" }),
         Message::Frame(_) => "frame".into(),
+    }
+}
+
+fn show_list(l: &[Message]) -> String {
+    l.iter().map(show_msg).collect::<Vec<_>>().join(" ")
+}
+
+/// where two message lists first differ (byte offset for binary messages of equal kind)
+fn first_difference(expected: &[Message], got: &[Message]) -> String {
+    for (i, (e, g)) in expected.iter().zip(got).enumerate() {
+        if e != g {
+            if let (Message::Binary(a), Message::Binary(b)) = (e, g) {
+                if let Some(d) = diff(a, b) {
+                    return format!("message #{i}: {d}");
+                }
+            }
+            return format!("message #{i}: expected {}, got {}", show_msg(e), show_msg(g));
+        }
+    }
+    if got.len() < expected.len() {
+        format!("message #{} ({}) and later never arrived", got.len(), show_msg(&expected[got.len()]))
+    } else {
+        format!("{} extra message(s) starting with {}", got.len() - expected.len(), show_msg(&got[expected.len()]))
+    }
+}
+
+fn kind_of(m: &Message) -> &'static str {
+    match m {
+        Message::Ping(_) => "ping",
+        Message::Pong(_) => "pong",
+        Message::Close(_) => "close",
+        _ => "data",
     }
 }
 
@@ -95,6 +245,15 @@ pub struct WsSide {
     pub finished: bool,
     pub err: Option<String>,
     pub err_poll: u64,
+    /// polls of a send / flush of this side that returned Pending (the socket did not take it all)
+    pub write_blocked: u64,
+    /// a send / flush of this side returned Pending during its latest poll
+    pub write_pending_now: bool,
+    /// kinds of messages that were yielded after a read had returned Pending although no byte was
+    /// delivered to this side in between: the message was available and held back by a pending flush
+    pub held_back: Vec<&'static str>,
+    /// bytes delivered to this side when its latest read returned Pending
+    read_pending_at: Option<u64>,
 }
 
 /// a flag the harness-side program sets; the other program can wait for it
@@ -130,13 +289,74 @@ impl Flag {
 
 type Ws = WebSocketStream<UnixStream>;
 
-async fn ws_side(side: usize, sock: UnixStream, scn: Scn, out: Rc<RefCell<WsSide>>, sender_done: Rc<Flag>) {
-    let r = ws_side_inner(side, sock, &scn, &out, &sender_done).await;
-    if side == scn.sender {
-        // whatever happened, never leave the receiver parked on the harness flag
-        sender_done.raise();
+/// what a program shares with the harness
+#[derive(Clone)]
+struct Io {
+    side: usize,
+    out: Rc<RefCell<WsSide>>,
+    /// inbound[s]: bytes (and the end of stream, counted as one) the relay has delivered to side s
+    inbound: Rc<[Cell<u64>; 2]>,
+    /// done[s]: side s has finished its program (duplex without close; sequential: the sender)
+    done: [Rc<Flag>; 2],
+}
+
+impl Io {
+    fn stage(&self, s: String) {
+        self.out.borrow_mut().stage = s;
     }
-    let mut o = out.borrow_mut();
+
+    fn write_pending(&self) {
+        let mut o = self.out.borrow_mut();
+        o.write_blocked += 1;
+        o.write_pending_now = true;
+    }
+
+    fn read_pending(&self) {
+        self.out.borrow_mut().read_pending_at = Some(self.inbound[self.side].get());
+    }
+
+    fn read_ready(&self, m: Option<&Message>) {
+        let mut o = self.out.borrow_mut();
+        if let (Some(at), Some(m)) = (o.read_pending_at.take(), m) {
+            if at == self.inbound[self.side].get() {
+                o.held_back.push(kind_of(m));
+            }
+        }
+    }
+}
+
+/// `ws.send(m)`, polled by hand so that a Pending (= the transport did not take everything) is seen
+async fn send_msg(ws: &mut Ws, io: &Io, m: Message) -> Result<(), WsError> {
+    let mut f = pin!(ws.send(m));
+    poll_fn(|cx| {
+        let r = f.as_mut().poll(cx);
+        if r.is_pending() {
+            io.write_pending();
+        }
+        r
+    })
+    .await
+}
+
+/// `ws.read()`, polled by hand (see `WsSide::held_back`)
+async fn read_msg(ws: &mut Ws, io: &Io) -> Result<Message, WsError> {
+    let mut f = pin!(ws.read());
+    poll_fn(|cx| {
+        let r = f.as_mut().poll(cx);
+        match &r {
+            Poll::Pending => io.read_pending(),
+            Poll::Ready(r) => io.read_ready(r.as_ref().ok()),
+        }
+        r
+    })
+    .await
+}
+
+async fn ws_side(side: usize, sock: UnixStream, scn: Scn, io: Io) {
+    let r = ws_side_inner(side, sock, &scn, &io).await;
+    // whatever happened, never leave the peer parked on the harness flag
+    io.done[side].raise();
+    let mut o = io.out.borrow_mut();
     match r {
         Ok(()) => {
             o.finished = true;
@@ -146,30 +366,41 @@ async fn ws_side(side: usize, sock: UnixStream, scn: Scn, out: Rc<RefCell<WsSide
     }
 }
 
-async fn ws_side_inner(side: usize, sock: UnixStream, scn: &Scn, out: &Rc<RefCell<WsSide>>, sender_done: &Rc<Flag>) -> Result<(), String> {
-    let stage = |s: String| out.borrow_mut().stage = s;
-    stage("handshake".into());
+async fn ws_side_inner(side: usize, sock: UnixStream, scn: &Scn, io: &Io) -> Result<(), String> {
+    io.stage("handshake".into());
     let pfd = PollFd::new(sock).map_err(|e| format!("PollFd::new: {e}"))?;
     let mut ws: Ws = if side == CLIENT {
         client_async("ws://localhost/c15", pfd).await.map_err(|e| format!("client handshake: {e}"))?.0
     } else {
         accept_async(pfd).await.map_err(|e| format!("server handshake: {e}"))?
     };
-    out.borrow_mut().handshake_ok = true;
+    io.out.borrow_mut().handshake_ok = true;
+    if scn.duplex {
+        duplex_program(side, &mut ws, scn, io).await?;
+    } else {
+        seq_program(side, &mut ws, scn, io).await?;
+    }
+    drop(ws);
+    Ok(())
+}
+
+/// one role sends the list message by message, the other receives
+async fn seq_program(side: usize, ws: &mut Ws, scn: &Scn, io: &Io) -> Result<(), String> {
+    let out = &io.out;
     let has_close = scn.msgs.last() == Some(&CLOSE);
     if side == scn.sender {
         for (i, m) in scn.msgs.iter().enumerate() {
-            stage(format!("send#{i}"));
-            ws.send(make_msg(*m, i)).await.map_err(|e| format!("send #{i} ({}): {e}", SYM_NAME[*m as usize]))?;
+            io.stage(format!("send#{i}"));
+            send_msg(ws, io, make_msg(*m, i)).await.map_err(|e| format!("send #{i} ({}): {e}", SYM_NAME[*m as usize]))?;
         }
         let pings = scn.msgs.iter().filter(|m| **m == PING).count();
         if has_close {
-            stage("drain".into());
-            read_until_closed(&mut ws, out).await?;
+            io.stage("drain".into());
+            read_until_closed(ws, io).await?;
         } else {
-            stage("wait-pong".into());
+            io.stage("wait-pong".into());
             while out.borrow().got.len() < pings {
-                match ws.read().await {
+                match read_msg(ws, io).await {
                     Ok(m) => out.borrow_mut().got.push(m),
                     Err(e) => return Err(format!("read while waiting for pong: {e}")),
                 }
@@ -177,34 +408,33 @@ async fn ws_side_inner(side: usize, sock: UnixStream, scn: &Scn, out: &Rc<RefCel
             out.borrow_mut().end = "done".into();
         }
     } else {
-        stage("recv".into());
+        io.stage("recv".into());
         while out.borrow().got.len() < scn.msgs.len() {
-            match ws.read().await {
+            match read_msg(ws, io).await {
                 Ok(m) => out.borrow_mut().got.push(m),
                 Err(e) => return Err(format!("read message #{}: {e}", out.borrow().got.len())),
             }
         }
         if has_close {
-            stage("drain".into());
-            read_until_closed(&mut ws, out).await?;
+            io.stage("drain".into());
+            read_until_closed(ws, io).await?;
         } else {
             // do not touch the stream any more: everything the protocol owes the peer (a pong) must
             // already have been sent when the message was yielded
-            stage("park".into());
-            FlagFut(sender_done.clone()).await;
+            io.stage("park".into());
+            FlagFut(io.done[scn.sender].clone()).await;
             out.borrow_mut().end = "done".into();
         }
     }
-    drop(ws);
     Ok(())
 }
 
-async fn read_until_closed(ws: &mut Ws, out: &Rc<RefCell<WsSide>>) -> Result<(), String> {
+async fn read_until_closed(ws: &mut Ws, io: &Io) -> Result<(), String> {
     loop {
-        match ws.read().await {
-            Ok(m) => out.borrow_mut().got.push(m),
+        match read_msg(ws, io).await {
+            Ok(m) => io.out.borrow_mut().got.push(m),
             Err(WsError::ConnectionClosed) => {
-                out.borrow_mut().end = "closed".into();
+                io.out.borrow_mut().end = "closed".into();
                 return Ok(());
             }
             Err(e) => return Err(format!("read while completing the close handshake: {e}")),
@@ -212,9 +442,142 @@ async fn read_until_closed(ws: &mut Ws, out: &Rc<RefCell<WsSide>>) -> Result<(),
     }
 }
 
+/// messages side `side` sends in a duplex scenario (its list, plus the close frame of an early closer)
+fn duplex_outgoing(scn: &Scn, side: usize) -> Vec<Message> {
+    let mut v: Vec<Message> = scn.lists[side].iter().enumerate().map(|(i, m)| make_msg(*m, i + 4 * side)).collect();
+    if scn.closing == Closing::Early(side) {
+        v.push(Message::Close(None));
+    }
+    v
+}
+
+fn duplex_pongs_owed_to(scn: &Scn, side: usize) -> Vec<Message> {
+    scn.lists[side].iter().enumerate().filter(|(_, m)| **m == PING).map(|(i, _)| pong_for(i + 4 * side)).collect()
+}
+
+/// Both roles run this: the side's own list is sent message by message (`poll_ready`, `start_send`,
+/// `poll_flush`: what `SinkExt::send` does) while, in the same task and with the same waker, the
+/// peer's messages are received with `poll_next` (what `join(send loop, receive loop)` over the
+/// two halves of the stream does). A blocked write therefore coexists with arriving messages and
+/// with the automatic replies (pong, close) they queue.
+async fn duplex_program(side: usize, ws: &mut Ws, scn: &Scn, io: &Io) -> Result<(), String> {
+    let peer = 1 - side;
+    let outgoing = duplex_outgoing(scn, side);
+    let until_closed = matches!(scn.closing, Closing::Early(_));
+    let need_msgs = scn.lists[peer].len();
+    let need_pongs = scn.lists[side].iter().filter(|m| **m == PING).count();
+    // sender state: index of the next message, and whether it has been started and awaits its flush
+    let mut next = 0usize;
+    let mut flushing = false;
+    let mut recv_done = !until_closed && need_msgs == 0 && need_pongs == 0;
+    let mut msgs = 0usize;
+    let mut pongs = 0usize;
+    poll_fn(|cx| {
+        loop {
+            io.stage(format!("duplex#send{next}{}/recv{}", if flushing { "-flush" } else { "" }, msgs + pongs));
+            if flushing {
+                match Pin::new(&mut *ws).poll_flush(cx) {
+                    Poll::Ready(Ok(())) => {
+                        flushing = false;
+                        next += 1;
+                    }
+                    Poll::Ready(Err(e)) => return Poll::Ready(Err(format!("flush of message #{next}: {e}"))),
+                    Poll::Pending => {
+                        io.write_pending();
+                        break;
+                    }
+                }
+            } else if next < outgoing.len() {
+                match Pin::new(&mut *ws).poll_ready(cx) {
+                    Poll::Ready(Ok(())) => {
+                        if let Err(e) = Pin::new(&mut *ws).start_send(outgoing[next].clone()) {
+                            return Poll::Ready(Err(format!("start_send of message #{next}: {e}")));
+                        }
+                        flushing = true;
+                    }
+                    Poll::Ready(Err(e)) => return Poll::Ready(Err(format!("poll_ready for message #{next}: {e}"))),
+                    Poll::Pending => {
+                        io.write_pending();
+                        break;
+                    }
+                }
+            } else {
+                break;
+            }
+        }
+        while !recv_done {
+            match ws.poll_next_unpin(cx) {
+                Poll::Ready(Some(Ok(m))) => {
+                    io.read_ready(Some(&m));
+                    if matches!(m, Message::Pong(_)) {
+                        pongs += 1;
+                    } else {
+                        msgs += 1;
+                    }
+                    io.out.borrow_mut().got.push(m);
+                    if !until_closed && msgs >= need_msgs && pongs >= need_pongs {
+                        recv_done = true;
+                    }
+                }
+                Poll::Ready(Some(Err(e))) => return Poll::Ready(Err(format!("read message #{}: {e}", msgs + pongs))),
+                Poll::Ready(None) => {
+                    io.read_ready(None);
+                    if until_closed {
+                        io.out.borrow_mut().end = "closed".into();
+                        recv_done = true;
+                    } else {
+                        return Poll::Ready(Err(format!("stream ended after {} of {} messages", msgs + pongs, need_msgs + need_pongs)));
+                    }
+                }
+                Poll::Pending => {
+                    io.read_pending();
+                    break;
+                }
+            }
+        }
+        io.stage(format!("duplex#send{next}{}/recv{}", if flushing { "-flush" } else { "" }, msgs + pongs));
+        if !flushing && next == outgoing.len() && recv_done { Poll::Ready(Ok(())) } else { Poll::Pending }
+    })
+    .await?;
+    match scn.closing {
+        Closing::Early(_) => {}
+        Closing::Late(s) => {
+            if s == side {
+                io.stage("close-send".into());
+                send_msg(ws, io, Message::Close(None)).await.map_err(|e| format!("send close: {e}"))?;
+            }
+            io.stage("drain".into());
+            read_until_closed(ws, io).await?;
+        }
+        Closing::None => {
+            // do not touch the stream any more (see the sequential program)
+            io.stage("park".into());
+            io.done[side].raise();
+            FlagFut(io.done[peer].clone()).await;
+            io.out.borrow_mut().end = "done".into();
+        }
+    }
+    Ok(())
+}
+
 // ---------------------------------------------------------------------------------------------
 // relay
 // ---------------------------------------------------------------------------------------------
+
+#[derive(Clone, Copy, PartialEq, Eq, Debug)]
+enum Stall {
+    No,
+    /// the relay does not read this direction during the current step
+    Next,
+    /// the relay does not read this direction until nothing else can move
+    Quiet,
+}
+
+enum Probe {
+    Data(usize),
+    Eof,
+    Nothing,
+}
 
 struct Relay {
     /// ends[0]: peer of the client's socket, ends[1]: peer of the server's socket
@@ -224,38 +587,150 @@ struct Relay {
     eof_seen: [bool; 2],
     eof_sent: [bool; 2],
     forwarded: [u64; 2],
+    stall: [Stall; 2],
+    /// see `Io::inbound`
+    inbound: Rc<[Cell<u64>; 2]>,
+}
+
+/// minimal kernel buffers (the kernel clamps the request to its minimum)
+fn shrink_buffers(s: &UnixStream) -> (usize, usize) {
+    let r = socket2::SockRef::from(s);
+    let _ = r.set_send_buffer_size(1);
+    let _ = r.set_recv_buffer_size(1);
+    (r.send_buffer_size().unwrap_or(0), r.recv_buffer_size().unwrap_or(0))
+}
+
+/// How many bytes a compio end's socket accepts while the relay is not reading, and the buffer
+/// sizes the kernel reports after shrinking (send, receive).
+pub fn send_capacity() -> (usize, usize, usize) {
+    let (a, _b) = UnixStream::pair().unwrap_or_else(|e| vcore::machinery_error(&format!("socketpair: {e}")));
+    let (snd, rcv) = shrink_buffers(&a);
+    a.set_nonblocking(true).unwrap();
+    let block = vec![0u8; 4 * BIG_LEN];
+    let mut total = 0;
+    let mut w = &a;
+    loop {
+        match w.write(&block[total..]) {
+            Ok(0) => break,
+            Ok(n) => total += n,
+            Err(e) if e.kind() == std::io::ErrorKind::Interrupted => continue,
+            Err(_) => break,
+        }
+        if total == block.len() {
+            break;
+        }
+    }
+    (total, snd, rcv)
 }
 
 impl Relay {
-    fn pump_in(&mut self) {
-        for d in 0..2 {
-            if self.eof_seen[d] {
-                continue;
-            }
-            let mut tmp = [0u8; 4096];
-            loop {
-                match self.ends[d].read(&mut tmp) {
-                    Ok(0) => {
-                        self.eof_seen[d] = true;
-                        break;
-                    }
-                    Ok(n) => self.buf[d].extend_from_slice(&tmp[..n]),
-                    Err(e) if e.kind() == std::io::ErrorKind::WouldBlock => break,
-                    Err(e) if e.kind() == std::io::ErrorKind::Interrupted => continue,
-                    Err(_) => {
-                        // reset by a peer that closed with unread data
-                        self.eof_seen[d] = true;
-                        break;
-                    }
-                }
+    fn probe(&self, d: usize) -> Probe {
+        let fd = self.ends[d].as_raw_fd();
+        let mut n: libc::c_int = 0;
+        // SAFETY: FIONREAD writes one int
+        let r = unsafe { libc::ioctl(fd, libc::FIONREAD, &mut n) };
+        if r == 0 && n > 0 {
+            return Probe::Data(n as usize);
+        }
+        let mut b = [0u8; 1];
+        // SAFETY: one-byte buffer, non-blocking peek
+        let r = unsafe { libc::recv(fd, b.as_mut_ptr().cast(), 1, libc::MSG_PEEK | libc::MSG_DONTWAIT) };
+        if r == 0 {
+            Probe::Eof
+        } else if r > 0 {
+            Probe::Data(1)
+        } else {
+            match std::io::Error::last_os_error().kind() {
+                std::io::ErrorKind::WouldBlock | std::io::ErrorKind::Interrupted => Probe::Nothing,
+                _ => Probe::Eof, // reset by a peer that closed with unread data
             }
         }
     }
 
-    /// one relay step; returns true if something was forwarded (bytes or EOF)
+    /// read everything direction `d` offers; returns the number of bytes taken
+    fn read_all(&mut self, d: usize) -> usize {
+        let mut tmp = [0u8; 4096];
+        let mut total = 0;
+        loop {
+            match self.ends[d].read(&mut tmp) {
+                Ok(0) => {
+                    self.eof_seen[d] = true;
+                    break;
+                }
+                Ok(n) => {
+                    self.buf[d].extend_from_slice(&tmp[..n]);
+                    total += n;
+                }
+                Err(e) if e.kind() == std::io::ErrorKind::WouldBlock => break,
+                Err(e) if e.kind() == std::io::ErrorKind::Interrupted => continue,
+                Err(_) => {
+                    // reset by a peer that closed with unread data
+                    self.eof_seen[d] = true;
+                    break;
+                }
+            }
+        }
+        total
+    }
+
+    /// something the relay has not stalled is waiting at one of its sockets
+    fn input_waiting(&self) -> bool {
+        (0..2).any(|d| !self.eof_seen[d] && self.stall[d] == Stall::No && !matches!(self.probe(d), Probe::Nothing))
+    }
+
+    fn quiet_stalled(&self) -> bool {
+        self.stall.contains(&Stall::Quiet)
+    }
+
+    /// the harness releases every direction stalled until quiescence
+    fn release_quiet(&mut self, trace: &mut Option<Vec<String>>) -> u32 {
+        let mut n = 0;
+        for d in 0..2 {
+            if self.stall[d] == Stall::Quiet {
+                self.stall[d] = Stall::No;
+                n += 1;
+                if let Some(t) = trace {
+                    t.push(format!("relay {}: nothing else can move, the relay reads this direction again", DIR_NAME[d]));
+                }
+            }
+        }
+        n
+    }
+
+    /// one relay step; returns true if something moved (bytes taken in, bytes or EOF forwarded)
     fn step(&mut self, dec: &mut Decider, trace: &mut Option<Vec<String>>) -> bool {
-        self.pump_in();
         let mut moved = false;
+        for d in 0..2 {
+            if self.eof_seen[d] || self.stall[d] == Stall::Quiet {
+                continue;
+            }
+            // a direction stalled for one step is read again now (and may be stalled again by the plan)
+            self.stall[d] = Stall::No;
+            if let Probe::Data(n) = self.probe(d) {
+                match dec.decide(d, Call::Intake, n) {
+                    Some(Dev::PendNext) => self.stall[d] = Stall::Next,
+                    Some(Dev::PendQuiet) => self.stall[d] = Stall::Quiet,
+                    _ => {}
+                }
+                if self.stall[d] != Stall::No {
+                    if let Some(t) = trace {
+                        t.push(format!(
+                            "relay {}: {n} bytes readable -> not read ({})",
+                            DIR_NAME[d],
+                            if self.stall[d] == Stall::Next { "until the next step" } else { "until nothing else can move" }
+                        ));
+                    }
+                    continue;
+                }
+            }
+            let n = self.read_all(d);
+            if n > 0 {
+                moved = true;
+                if let Some(t) = trace {
+                    t.push(format!("relay {}: read {n} bytes from the {}'s socket", DIR_NAME[d], SIDE_NAME[d]));
+                }
+            }
+        }
         for d in 0..2 {
             let n = self.buf[d].len();
             if n > 0 {
@@ -275,6 +750,8 @@ impl Relay {
                     match self.ends[1 - d].write(&chunk[off..]) {
                         Ok(w) => off += w,
                         Err(e) if e.kind() == std::io::ErrorKind::WouldBlock || e.kind() == std::io::ErrorKind::Interrupted => {
+                            // the relay's own sockets keep the default (large) send buffer: every
+                            // scenario's total traffic fits, so this is a harness failure
                             spins += 1;
                             if spins > 1000 {
                                 panic!("harness: relay socket buffer stays full");
@@ -284,11 +761,13 @@ impl Relay {
                     }
                 }
                 self.forwarded[d] += k as u64;
+                self.inbound[1 - d].set(self.inbound[1 - d].get() + k as u64);
                 moved |= k > 0;
             }
             if self.buf[d].is_empty() && self.eof_seen[d] && !self.eof_sent[d] {
                 let _ = self.ends[1 - d].shutdown(std::net::Shutdown::Write);
                 self.eof_sent[d] = true;
+                self.inbound[1 - d].set(self.inbound[1 - d].get() + 1);
                 moved = true;
                 if let Some(t) = trace {
                     t.push(format!("relay {}: end of stream forwarded", DIR_NAME[d]));
@@ -298,8 +777,9 @@ impl Relay {
         moved
     }
 
+    /// the relay itself can do something at its next step
     fn pending(&self) -> bool {
-        self.buf.iter().any(|b| !b.is_empty())
+        self.buf.iter().any(|b| !b.is_empty()) || self.stall.contains(&Stall::Next)
     }
 }
 
@@ -325,10 +805,15 @@ pub struct WsOut {
     pub polls: u64,
     pub forwarded: [u64; 2],
     pub late_wakes: u64,
+    /// directions released at quiescence
+    pub quiet_releases: u32,
+    /// a side whose write was Pending when a stalled direction was released ran again afterwards
+    pub blocked_writer_resumed: bool,
     pub trace: Vec<String>,
 }
 
 const WS_POLL_HORIZON: u64 = 2_000;
+const WS_ROUND_HORIZON: u64 = 20_000;
 
 fn build_runtime(uring: bool) -> Runtime {
     let mut pb = ProactorBuilder::new();
@@ -361,28 +846,53 @@ pub fn run_ws(scn: &Scn, plan: &Plan, tracing: bool) -> WsOut {
     let mut polls = 0u64;
     let mut late_wakes = 0u64;
     let mut forwarded = [0u64; 2];
+    let mut quiet_releases = 0u32;
+    let mut blocked_writer_resumed = false;
     let end = rt.enter(|| {
         let pair = || UnixStream::pair().unwrap_or_else(|e| vcore::machinery_error(&format!("socketpair: {e}")));
         let (c_end, ra) = pair();
         let (s_end, rb) = pair();
+        // the compio ends get minimal kernel buffers: what they can write while the relay is not
+        // reading is a few KiB; the relay's own sockets keep the default send buffer (its forwarding
+        // never blocks) and get a minimal receive buffer
+        for s in [&c_end, &s_end] {
+            shrink_buffers(s);
+        }
         for s in [&ra, &rb] {
             s.set_nonblocking(true).unwrap();
+            let _ = socket2::SockRef::from(s).set_recv_buffer_size(1);
         }
+        let inbound: Rc<[Cell<u64>; 2]> = Rc::new([Cell::new(0), Cell::new(0)]);
         let mut relay = Relay {
             ends: [ra, rb],
             buf: [Vec::new(), Vec::new()],
             eof_seen: [false; 2],
             eof_sent: [false; 2],
             forwarded: [0; 2],
+            stall: [Stall::No; 2],
+            inbound: inbound.clone(),
         };
-        let flag = Rc::new(Flag::default());
+        let done = [Rc::new(Flag::default()), Rc::new(Flag::default())];
         let board = Arc::new(Board::default());
+        let io = |s: usize| Io {
+            side: s,
+            out: outs[s].clone(),
+            inbound: inbound.clone(),
+            done: done.clone(),
+        };
         let mut futs: [Option<Pin<Box<dyn Future<Output = ()>>>>; 2] = [
-            Some(Box::pin(ws_side(CLIENT, c_end, scn.clone(), outs[0].clone(), flag.clone()))),
-            Some(Box::pin(ws_side(SERVER, s_end, scn.clone(), outs[1].clone(), flag.clone()))),
+            Some(Box::pin(ws_side(CLIENT, c_end, scn.clone(), io(CLIENT)))),
+            Some(Box::pin(ws_side(SERVER, s_end, scn.clone(), io(SERVER)))),
         ];
+        // sides whose write was Pending when a stalled direction was released
+        let mut owed_wake = [false; 2];
         let r = vcore::catch(|| {
+            let mut rounds = 0u64;
             loop {
+                rounds += 1;
+                if rounds > WS_ROUND_HORIZON {
+                    return WsEnd::Spin(format!("more than {WS_ROUND_HORIZON} scheduler rounds"));
+                }
                 let mut polled = false;
                 for s in 0..2 {
                     if futs[s].is_none() || !board.runnable(s) {
@@ -391,19 +901,31 @@ pub fn run_ws(scn: &Scn, plan: &Plan, tracing: bool) -> WsOut {
                     let waker = board.next_waker(s);
                     polled = true;
                     polls += 1;
+                    if owed_wake[s] {
+                        owed_wake[s] = false;
+                        blocked_writer_resumed = true;
+                    }
+                    outs[s].borrow_mut().write_pending_now = false;
                     if let Some(t) = &mut trace {
                         t.push(format!("-- poll {} (#{polls}, stage {})", SIDE_NAME[s], outs[s].borrow().stage));
                     }
                     let mut cx = Context::from_waker(&waker);
-                    if let Poll::Ready(()) = futs[s].as_mut().unwrap().as_mut().poll(&mut cx) {
+                    let ready = futs[s].as_mut().unwrap().as_mut().poll(&mut cx).is_ready();
+                    if let Some(t) = &mut trace {
+                        let o = outs[s].borrow();
+                        if !ready {
+                            t.push(format!("   {} pending at stage {}{}; got [{}]", SIDE_NAME[s], o.stage,
+                                if o.write_pending_now { " (write blocked)" } else { "" }, show_list(&o.got)));
+                        }
+                    }
+                    if ready {
                         futs[s] = None; // drops the WebSocket stream and closes the socket
                         let mut o = outs[s].borrow_mut();
                         if o.err.is_some() {
                             o.err_poll = polls;
                         }
                         if let Some(t) = &mut trace {
-                            t.push(format!("   {} finished: got [{}] end={} err={:?}", SIDE_NAME[s],
-                                o.got.iter().map(show_msg).collect::<Vec<_>>().join(" "), o.end, o.err));
+                            t.push(format!("   {} finished: got [{}] end={} err={:?}", SIDE_NAME[s], show_list(&o.got), o.end, o.err));
                         }
                     }
                 }
@@ -420,17 +942,19 @@ pub fn run_ws(scn: &Scn, plan: &Plan, tracing: bool) -> WsOut {
                 if runnable(&futs) || relay.pending() || polled {
                     continue;
                 }
-                // Nothing can run. A completion the harness itself enabled (bytes it forwarded) may need a
-                // few more harvest rounds; never an unbounded wait.
-                let rounds = if moved { 60 } else { 30 };
+                // Nothing can run. A completion the harness itself enabled (bytes it took or forwarded)
+                // may need a few more harvest rounds; never an unbounded wait. While a direction is
+                // stalled until quiescence the confirmation is short (its release follows anyway); the
+                // verdict "deadlock" is only given with every stall released and after the full wait.
+                let quiet = relay.quiet_stalled();
+                let wait_rounds = if quiet { 4 } else if moved { 60 } else { 30 };
                 let mut woke = false;
-                for i in 0..rounds {
+                for i in 0..wait_rounds {
                     if i > 2 {
                         std::thread::sleep(Duration::from_millis(1));
                     }
                     harvest(&rt);
-                    relay.pump_in();
-                    if runnable(&futs) || relay.pending() || relay.eof_seen.iter().zip(&relay.eof_sent).any(|(a, b)| a != b) {
+                    if runnable(&futs) || relay.pending() || relay.input_waiting() || relay.eof_seen.iter().zip(&relay.eof_sent).any(|(a, b)| a != b) {
                         woke = true;
                         if i > 0 {
                             late_wakes += 1;
@@ -438,9 +962,17 @@ pub fn run_ws(scn: &Scn, plan: &Plan, tracing: bool) -> WsOut {
                         break;
                     }
                 }
-                if !woke {
-                    return WsEnd::Deadlock;
+                if woke {
+                    continue;
                 }
+                if quiet {
+                    quiet_releases += relay.release_quiet(&mut trace);
+                    for s in 0..2 {
+                        owed_wake[s] = futs[s].is_some() && outs[s].borrow().write_pending_now;
+                    }
+                    continue;
+                }
+                return WsEnd::Deadlock;
             }
         });
         forwarded = relay.forwarded;
@@ -473,13 +1005,25 @@ pub fn run_ws(scn: &Scn, plan: &Plan, tracing: bool) -> WsOut {
         polls,
         forwarded,
         late_wakes,
+        quiet_releases,
+        blocked_writer_resumed,
         trace: trace.unwrap_or_default(),
     }
 }
 
 pub fn judge_ws(scn: &Scn, out: &WsOut) -> Result<String, (String, String)> {
     let stages = format!("client@{} server@{}", out.sides[0].stage, out.sides[1].stage);
-    let got = |s: usize| out.sides[s].got.iter().map(show_msg).collect::<Vec<_>>().join(" ");
+    let got = |s: usize| show_list(&out.sides[s].got);
+    let role = |s: usize| -> String {
+        if scn.duplex {
+            SIDE_NAME[s].into()
+        } else if s == scn.sender {
+            "sender".into()
+        } else {
+            "receiver".into()
+        }
+    };
+    let st = |s: usize| out.sides[s].stage.split('#').next().unwrap_or("").to_string();
     match &out.end {
         WsEnd::Panic(p) => return Err(("panic".into(), format!("{p} ({stages})"))),
         WsEnd::Spin(p) => return Err(("spin".into(), format!("{p} ({stages})"))),
@@ -489,23 +1033,25 @@ pub fn judge_ws(scn: &Scn, out: &WsOut) -> Result<String, (String, String)> {
     errs.sort();
     if let Some((_, s)) = errs.first() {
         let o = &out.sides[*s];
-        let role = if *s == scn.sender { "sender" } else { "receiver" };
-        let oracle = if !o.handshake_ok { "handshake-error".to_string() } else { format!("error@{role}-{}", o.stage.split('#').next().unwrap_or("")) };
+        let oracle = if !o.handshake_ok { "handshake-error".to_string() } else { format!("error@{}-{}", role(*s), st(*s)) };
         return Err((
             oracle,
-            format!("{} ({role}) failed: {} ({stages}; client got [{}], server got [{}])", SIDE_NAME[*s], o.err.as_deref().unwrap_or(""), got(0), got(1)),
+            format!("{} ({}) failed: {} ({stages}; client got [{}], server got [{}])", SIDE_NAME[*s], role(*s), o.err.as_deref().unwrap_or(""), got(0), got(1)),
         ));
     }
     if out.end == WsEnd::Deadlock {
-        let st = |s: usize| out.sides[s].stage.split('#').next().unwrap_or("").to_string();
+        let (a, b) = if scn.duplex { (CLIENT, SERVER) } else { (scn.sender, 1 - scn.sender) };
         return Err((
-            format!("deadlock@sender-{}/receiver-{}", st(scn.sender), st(1 - scn.sender)),
+            format!("deadlock@{}-{}/{}-{}", role(a), st(a), role(b), st(b)),
             format!(
-                "no side can run, the relay has nothing to forward and no readiness event arrives: {stages}; client got [{}], server got [{}]",
+                "no side can run, the relay reads both directions and has nothing to forward, and no readiness event arrives: {stages}; client got [{}], server got [{}]",
                 got(0),
                 got(1)
             ),
         ));
+    }
+    if scn.duplex {
+        return judge_duplex(scn, out);
     }
     let has_close = scn.msgs.last() == Some(&CLOSE);
     let recv = 1 - scn.sender;
@@ -514,32 +1060,22 @@ pub fn judge_ws(scn: &Scn, out: &WsOut) -> Result<String, (String, String)> {
         return Err((
             "messages-differ".into(),
             format!(
-                "receiver ({}) got [{}], expected [{}]",
+                "receiver ({}) got [{}], expected [{}]: {}",
                 SIDE_NAME[recv],
                 got(recv),
-                expected_recv.iter().map(show_msg).collect::<Vec<_>>().join(" ")
+                show_list(&expected_recv),
+                first_difference(&expected_recv, &out.sides[recv].got)
             ),
         ));
     }
-    let mut expected_send: Vec<Message> = scn
-        .msgs
-        .iter()
-        .enumerate()
-        .filter(|(_, m)| **m == PING)
-        .map(|(i, _)| Message::Pong(vec![b'p', b'0' + i as u8].into()))
-        .collect();
+    let mut expected_send: Vec<Message> = scn.msgs.iter().enumerate().filter(|(_, m)| **m == PING).map(|(i, _)| pong_for(i)).collect();
     if has_close {
         expected_send.push(Message::Close(None));
     }
     if out.sides[scn.sender].got != expected_send {
         return Err((
             "replies-differ".into(),
-            format!(
-                "sender ({}) got [{}], expected [{}]",
-                SIDE_NAME[scn.sender],
-                got(scn.sender),
-                expected_send.iter().map(show_msg).collect::<Vec<_>>().join(" ")
-            ),
+            format!("sender ({}) got [{}], expected [{}]", SIDE_NAME[scn.sender], got(scn.sender), show_list(&expected_send)),
         ));
     }
     for s in 0..2 {
@@ -554,22 +1090,83 @@ pub fn judge_ws(scn: &Scn, out: &WsOut) -> Result<String, (String, String)> {
     Ok(format!("{}:ok:len{}:close={}", scn.class(), scn.msgs.len(), has_close))
 }
 
+/// Duplex oracle. Side X must have received, in order and exactly once, the peer's list (then the
+/// peer's close frame if the peer closes), then the reply to its own close frame if X closes; the
+/// pongs among what X received must be exactly one per ping of X's list, in order (where a pong
+/// sits between the peer's messages is the peer's business).
+fn judge_duplex(scn: &Scn, out: &WsOut) -> Result<String, (String, String)> {
+    let closer = match scn.closing {
+        Closing::None => None,
+        Closing::Late(s) | Closing::Early(s) => Some(s),
+    };
+    for x in 0..2 {
+        let y = 1 - x;
+        let (pongs, msgs): (Vec<Message>, Vec<Message>) = out.sides[x].got.iter().cloned().partition(|m| matches!(m, Message::Pong(_)));
+        let mut expected: Vec<Message> = scn.lists[y].iter().enumerate().map(|(i, m)| make_msg(*m, i + 4 * y)).collect();
+        if closer == Some(y) {
+            expected.push(Message::Close(None));
+        }
+        let n = expected.len().min(msgs.len());
+        if msgs[..n] != expected[..] {
+            return Err((
+                "messages-differ".into(),
+                format!(
+                    "{} got [{}] (pongs left out: [{}]), expected [{}] from the {}: {}",
+                    SIDE_NAME[x],
+                    show_list(&out.sides[x].got),
+                    show_list(&msgs),
+                    show_list(&expected),
+                    SIDE_NAME[y],
+                    first_difference(&expected, &msgs[..n])
+                ),
+            ));
+        }
+        let reply: Vec<Message> = if closer == Some(x) { vec![Message::Close(None)] } else { Vec::new() };
+        let owed = duplex_pongs_owed_to(scn, x);
+        if msgs[n..] != reply[..] || pongs != owed {
+            return Err((
+                "replies-differ".into(),
+                format!(
+                    "{} got [{}]: after the {}'s messages expected [{}], got [{}]; expected pongs [{}], got [{}]",
+                    SIDE_NAME[x],
+                    show_list(&out.sides[x].got),
+                    SIDE_NAME[y],
+                    show_list(&reply),
+                    show_list(&msgs[n..]),
+                    show_list(&owed),
+                    show_list(&pongs)
+                ),
+            ));
+        }
+    }
+    for s in 0..2 {
+        let want = if closer.is_some() { "closed" } else { "done" };
+        if out.sides[s].end != want || !out.sides[s].finished {
+            return Err((
+                "unclean-close".into(),
+                format!("{} ended with {:?}, expected {want:?}", SIDE_NAME[s], out.sides[s].end),
+            ));
+        }
+    }
+    Ok(format!("{}:ok:len{}+{}", scn.class(), scn.lists[0].len(), scn.lists[1].len()))
+}
+
 // ---------------------------------------------------------------------------------------------
 // enumeration
 // ---------------------------------------------------------------------------------------------
 
-fn lists(max: usize) -> Vec<Vec<u8>> {
-    // every list of at most `max` symbols in which `close`, if present, is the last one
+/// every list of at most `max` symbols of `alphabet` in which `close`, if present, is the last one
+fn lists(alphabet: &[u8], max: usize) -> Vec<Vec<u8>> {
     let mut out = vec![vec![]];
     let mut frontier: Vec<Vec<u8>> = vec![vec![]];
     for _ in 0..max {
         let mut next = Vec::new();
         for l in &frontier {
-            for s in 0..5u8 {
+            for s in alphabet {
                 let mut n = l.clone();
-                n.push(s);
+                n.push(*s);
                 out.push(n.clone());
-                if s != CLOSE {
+                if *s != CLOSE {
                     next.push(n);
                 }
             }
@@ -594,47 +1191,60 @@ fn ws_exec(cx: &WsCtx, scn: &Scn, plan: &Plan) -> WsOut {
         cx.unreached.fetch_add(1, Ordering::Relaxed);
     }
     cx.late.fetch_add(out.late_wakes, Ordering::Relaxed);
-    for ((_, d), a) in plan.iter().zip(&out.applied) {
+    for ((p, d), a) in plan.iter().zip(&out.applied) {
         if *a {
-            rep.count(&format!("ws.applied.relay.{}", DEV_NAME[*d as usize]), 1);
+            rep.count(&format!("ws.applied.{}.{}", CALL_NAME[p.call as usize], DEV_NAME[*d as usize]), 1);
         }
     }
     match judge_ws(scn, &out) {
         Ok(sig) => {
             rep.count(&format!("ws.ok.{}", scn.class()), 1);
-            if scn.msgs.contains(&PING) {
+            if scn.has(PING) {
                 rep.count("ws.ping-ponged", 1);
             }
-            if scn.msgs.last() == Some(&CLOSE) {
+            if scn.has(CLOSE) || scn.closing != Closing::None {
                 rep.count("ws.close-handshake-completed", 1);
             }
-            rep.outcome(format!("ws:{sig}:{}", plan_class(plan, &out.applied)));
-            if plan.len() == 1 && out.applied[0] && scn.msgs.len() == 3 {
+            if scn.has(BIG) {
+                rep.count("ws.large-message-delivered", 1);
+            }
+            // the back-pressure dimension must not be vacuous
+            let blocked = out.sides.iter().any(|s| s.write_blocked > 0);
+            if blocked {
+                rep.count("ws.write-blocked-by-backpressure", 1);
+            }
+            if out.quiet_releases > 0 {
+                rep.count("ws.stall-released-at-quiescence", 1);
+            }
+            if out.blocked_writer_resumed {
+                rep.count("ws.blocked-writer-woken-after-stall-release", 1);
+            }
+            let mut held: Vec<&str> = out.sides.iter().flat_map(|s| s.held_back.iter().copied()).collect();
+            held.sort();
+            held.dedup();
+            if !held.is_empty() {
+                rep.count("ws.flush-pending-while-message-available", 1);
+                for k in &held {
+                    rep.count(&format!("ws.held-back-by-pending-flush.{k}"), 1);
+                }
+            }
+            rep.outcome(format!("ws:{sig}:{}:{}{}", plan_class(plan, &out.applied), if blocked { "write-blocked" } else { "no-backpressure" },
+                if held.is_empty() { String::new() } else { format!(":held-{}", held.join("+")) }));
+            if plan.len() == 1 && out.applied[0] && scn.total_len() == 3 {
                 rep.sample(10, || json!({"part": "ws", "scenario": scn.name(), "plan": plan_text(plan), "polls": out.polls,
                                         "relay_points": out.reached.len(), "result": "ok"}));
             }
         }
         Err((oracle, detail)) => {
             let class = plan_class(plan, &out.applied);
-            let shape: String = {
-                // cause class of the input: which kinds of message are in the list
-                let mut k: Vec<&str> = Vec::new();
-                if scn.msgs.iter().any(|m| *m < PING) {
-                    k.push("data");
-                }
-                if scn.msgs.contains(&PING) {
-                    k.push("ping");
-                }
-                if scn.msgs.contains(&CLOSE) {
-                    k.push("close");
-                }
-                k.join("+")
-            };
-            let key = format!("ws:{}:{}:{}:{}", scn.class(), oracle, if shape.is_empty() { "empty".into() } else { shape }, class);
-            let rank = (plan.len() as u64) << 40 | (scn.msgs.len() as u64) << 32 | plan.iter().map(|p| p.0.ord as u64).sum::<u64>().min(0xffff);
+            let key = format!("ws:{}:{}:{}:{}", scn.class(), oracle, scn.shape(), class);
+            let rank = (plan.len() as u64) << 40 | (scn.total_len() as u64) << 32 | (scn.has(BIG) as u64) << 31 | plan.iter().map(|p| p.0.ord as u64).sum::<u64>().min(0xffff);
+            if !cx.col.wants(&key, rank) {
+                return out;
+            }
             let traced = run_ws(scn, plan, true);
             let same = judge_ws(scn, &traced).err().map(|e| e.0) == Some(oracle.clone());
-            let tail: Vec<String> = traced.trace.iter().rev().take(40).rev().cloned().collect();
+            let tail: Vec<String> = traced.trace.iter().rev().take(60).rev().cloned().collect();
             cx.col.add(
                 rank,
                 Violation {
@@ -670,33 +1280,96 @@ pub fn must_reach(rep: &Report, tier: Tier) {
     for d in ["one", "half", "hold"] {
         rep.must_reach(&format!("ws.applied.relay.{d}"));
     }
-    rep.must_reach("ws.ping-ponged");
-    rep.must_reach("ws.close-handshake-completed");
-    for s in scenarios(tier) {
-        rep.must_reach(&format!("ws.ok.{}", s.class()));
+    for d in ["pend-next", "pend-quiet"] {
+        rep.must_reach(&format!("ws.applied.intake.{d}"));
+    }
+    for k in [
+        "ws.ping-ponged",
+        "ws.close-handshake-completed",
+        "ws.large-message-delivered",
+        "ws.write-blocked-by-backpressure",
+        "ws.stall-released-at-quiescence",
+        "ws.blocked-writer-woken-after-stall-release",
+        "ws.flush-pending-while-message-available",
+        "ws.held-back-by-pending-flush.data",
+        "ws.held-back-by-pending-flush.ping",
+        "ws.held-back-by-pending-flush.close",
+    ] {
+        rep.must_reach(k);
+    }
+    let mut classes: Vec<String> = scenarios(tier).iter().map(|s| s.class()).collect();
+    classes.sort();
+    classes.dedup();
+    for c in classes {
+        rep.must_reach(&format!("ws.ok.{c}"));
     }
 }
 
-fn scenarios(_tier: Tier) -> Vec<Scn> {
+const SEQ_ALPHABET: [u8; 6] = [0, 1, 2, PING, CLOSE, BIG];
+
+fn duplex_alphabet(tier: Tier) -> Vec<u8> {
+    tier.pick(vec![1, PING, BIG], vec![0, 1, 2, PING, BIG])
+}
+
+fn scenarios(tier: Tier) -> Vec<Scn> {
     let mut v = Vec::new();
-    for l in lists(3) {
+    for l in lists(&SEQ_ALPHABET, 3) {
         for sender in [CLIENT, SERVER] {
             for uring in [false, true] {
-                v.push(Scn {
-                    sender,
-                    msgs: l.clone(),
-                    uring,
-                });
+                v.push(Scn::seq(sender, l.clone(), uring));
+            }
+        }
+    }
+    let alphabet = duplex_alphabet(tier);
+    let ls = lists(&alphabet, 2);
+    let mut singles: Vec<Vec<u8>> = vec![vec![]];
+    singles.extend(alphabet.iter().filter(|m| **m != PING).map(|m| vec![*m]));
+    for uring in [false, true] {
+        let mut push = |a: &Vec<u8>, b: &Vec<u8>, closing: Closing| {
+            v.push(Scn {
+                duplex: true,
+                sender: 0,
+                msgs: Vec::new(),
+                lists: [a.clone(), b.clone()],
+                closing,
+                uring,
+            })
+        };
+        for a in &ls {
+            for b in &ls {
+                for closing in [Closing::None, Closing::Late(CLIENT), Closing::Late(SERVER)] {
+                    push(a, b, closing);
+                }
+            }
+        }
+        // early close: the closer's list is free, the peer's is at most one data message
+        for x in &ls {
+            for y in &singles {
+                push(x, y, Closing::Early(CLIENT));
+                push(y, x, Closing::Early(SERVER));
             }
         }
     }
     v
 }
 
+/// scenarios that get the second deviation level (thorough): every sequential list without the
+/// large message, sequential lists with it up to 2 messages, duplex scenarios with at most 3 messages
+/// in total
+fn level2(scn: &Scn) -> bool {
+    if scn.duplex { scn.total_len() <= 3 } else { scn.total_len() <= 2 || !scn.has(BIG) }
+}
+
 pub fn run(rep: &Report, col: &Collector, tier: Tier) -> Value {
+    let (capacity, sndbuf, rcvbuf) = send_capacity();
+    if capacity == 0 || capacity * 3 > BIG_LEN {
+        vcore::machinery_error(&format!(
+            "a socket with minimal buffers accepts {capacity} bytes unread (SO_SNDBUF {sndbuf}): the {BIG_LEN}-byte message is not comfortably larger"
+        ));
+    }
     let scns = scenarios(tier);
     let bound = tier.pick(1, 2);
-    let deadline = tier.pick(43.0, 570.0);
+    let deadline = tier.pick(100.0, 570.0); // absolute, from the start of the run (the TLS part comes first)
     let cx = WsCtx {
         rep,
         col,
@@ -717,7 +1390,7 @@ pub fn run(rep: &Report, col: &Collector, tier: Tier) -> Value {
             items.push((i, p));
         }
     }
-    items.sort_by_key(|(i, (p, d))| (p.ord, p.side, *d, *i));
+    items.sort_by_key(|(i, (p, d))| (p.ord, p.call, p.side, *d, *i));
     let l1 = items.len();
     let l2 = AtomicU64::new(0);
     let capped = AtomicBool::new(false);
@@ -728,7 +1401,7 @@ pub fn run(rep: &Report, col: &Collector, tier: Tier) -> Value {
         }
         let scn = &scns[*i];
         let out = ws_exec(&cx, scn, &vec![*first]);
-        if bound >= 2 && out.applied[0] {
+        if bound >= 2 && level2(scn) && out.applied[0] {
             for second in plans_after(&out.reached, Some(first.0)) {
                 if rep.elapsed() > deadline {
                     capped.store(true, Ordering::Relaxed);
@@ -744,11 +1417,21 @@ pub fn run(rep: &Report, col: &Collector, tier: Tier) -> Value {
     }
     rep.count("ws.plan-point-unreached", cx.unreached.load(Ordering::Relaxed));
     rep.count("ws.readiness-needed-extra-harvest-rounds", cx.late.load(Ordering::Relaxed));
+    let n_seq = scns.iter().filter(|s| !s.duplex).count();
+    let dn: Vec<&str> = duplex_alphabet(tier).iter().map(|m| SYM_NAME[*m as usize]).collect();
     json!({
         "scenarios": scns.len(),
-        "message_lists": "all lists of <= 3 symbols from {empty text, 1-byte binary, 200-byte binary, ping, close} with close only in last position (106 lists), sent by the client or by the server, on the io_uring and on the polling driver",
+        "sequential_scenarios": n_seq,
+        "duplex_scenarios": scns.len() - n_seq,
+        "message_lists": format!("sequential: all lists of <= 3 symbols from {{empty text, 1-byte binary, 200-byte binary, ping, close, {BIG_LEN}-byte position-coded binary}} with close only in last position (187 lists), sent by the client or by the server while the other role receives; \
+            duplex: both roles send a list of <= 2 symbols from {{{}}} and receive the peer's list concurrently in one task ({} x {} list pairs), with no close / a close started by the client or by the server once it has sent and received everything; \
+            plus an early close by either role right after its own list while the peer sends at most one data message; every scenario on the io_uring and on the polling driver", dn.join(", "), lists(&duplex_alphabet(tier), 2).len(), lists(&duplex_alphabet(tier), 2).len()),
+        "socket_buffers": {"compio_end_SO_SNDBUF": sndbuf, "compio_end_SO_RCVBUF": rcvbuf,
+                           "bytes_a_compio_end_can_write_while_the_relay_does_not_read": capacity, "large_message_bytes": BIG_LEN},
         "deviation_bound": bound,
-        "relay_deviations": ["one byte", "half", "hold for one step"],
+        "two_deviation_level_for": "thorough only: every sequential list without the large message, sequential lists with it of at most 2 messages, duplex scenarios with at most 3 messages in total",
+        "relay_deviations": {"forwarding": ["one byte", "half", "hold for one step"],
+                             "intake (per direction, whenever the compio end's bytes are readable)": ["not read until the next step", "not read until nothing else can move"]},
         "relay_points_max_per_run": points_max,
         "one_deviation_runs": l1,
         "two_deviation_runs": l2.load(Ordering::Relaxed),
@@ -763,12 +1446,16 @@ pub fn replay(r: &Value, plan: &Plan) -> ! {
         println!("{l}");
     }
     println!(
-        "scenario {}, plan [{}], applied {:?}; relay forwarded {} bytes client->server and {} bytes server->client",
+        "scenario {}, plan [{}], applied {:?}; relay forwarded {} bytes client->server and {} bytes server->client; write blocked: client {} server {} polls; held back by a pending flush: client {:?} server {:?}",
         scn.name(),
         plan_text(plan),
         out.applied,
         out.forwarded[0],
-        out.forwarded[1]
+        out.forwarded[1],
+        out.sides[0].write_blocked,
+        out.sides[1].write_blocked,
+        out.sides[0].held_back,
+        out.sides[1].held_back
     );
     match judge_ws(&scn, &out) {
         Ok(sig) => {
